@@ -8,7 +8,7 @@ H: the control flow of resolve_gates (Model/Decompose.lean, with every field of 
 Model/DecomposeF.lean) is run side by side with the code; EVERY attribute of every emitted gate object is compared.
 Variants of the source (fixes/C03-2: classical condition handed on; fixes/C03-3: a string basis is one name) are read
 from the tree by probing each stage (source_variant)."""
-import itertools, math, time
+import copy, itertools, math, time
 import numpy as np
 
 from vlib.core import PropertyCheck, TranslatorError
@@ -74,11 +74,14 @@ def label_of_text(txt):
 class G:
     """A gate of the harness: name, targets, controls, angle = symbolic value or fixed multiple of pi/8; optional
     label (("u", id) | ("f", k, m)), classical condition (bits, value), style (any dict); `meas`: a measurement."""
-    __slots__ = ("name", "t", "c", "sym", "p8", "val", "lab", "cond", "style", "meas")
+    __slots__ = ("name", "t", "c", "sym", "p8", "val", "lab", "cond", "style", "meas", "form", "cont")
 
-    def __init__(self, name, t, c, sym=None, p8=0, val=None, lab=None, cond=None, style=None, meas=False):
+    def __init__(self, name, t, c, sym=None, p8=0, val=None, lab=None, cond=None, style=None, meas=False,
+                 form="name", cont="list"):
         self.name, self.t, self.c, self.sym, self.p8, self.val = name, list(t), list(c), sym, p8, val
         self.lab, self.cond, self.style, self.meas = lab, cond, style, meas
+        # HOW the gate object is made (FORMS) and in which container its qubits are given (CONTS)
+        self.form, self.cont = form, cont
 
     def enc_item(self):
         if self.meas:
@@ -96,6 +99,10 @@ class G:
             e["cond"] = [list(self.cond[0]), self.cond[1]]
         if self.style is not None:
             e["style"] = self.style
+        if getattr(self, "form", "name") != "name":
+            e["form"] = self.form
+        if getattr(self, "cont", "list") != "list":
+            e["cont"] = self.cont
         return e
 
     def wit(self):
@@ -167,6 +174,81 @@ def _user_not():
     return qutip.sigmax()
 
 
+FORMS = ["name", "class", "generic", "moved", "ctrl"]
+CONTS = ["list", "tuple", "array", "npint", "scalar"]
+
+
+def container(kind, qs):
+    """the qubits `qs` as the caller may hand them over"""
+    if not qs:
+        return None
+    if kind == "tuple":
+        return tuple(qs)
+    if kind == "array":
+        return np.array(qs)
+    if kind == "npint":
+        return [np.int64(q) for q in qs]
+    if kind == "scalar":
+        return (np.int64(qs[0]) if qs[0] % 2 else int(qs[0])) if len(qs) == 1 else list(qs)
+    return list(qs)
+
+
+def gate_kwargs(g):
+    kw = {}
+    if g.value() is not None:
+        kw["arg_value"] = g.value()
+    if getattr(g, "lab", None) is not None:
+        kw["arg_label"] = label_text(g.lab)
+    if getattr(g, "cond", None) is not None:
+        kw["classical_controls"] = list(g.cond[0])
+        kw["classical_control_value"] = g.cond[1]
+    if getattr(g, "style", None) is not None:
+        kw["style"] = dict(g.style)
+    return kw
+
+
+def add_gate_in_form(qc, g):
+    """put the harness gate `g` into `qc` in the form g.form: by NAME through add_gate, as an instance of the library
+    CLASS of that name, as a GENERIC base-class Gate carrying the name, MOVED from another circuit, or (CNOT, CSIGN) as a
+    `_OneControlledGate(target_gate=...)` carrying the name"""
+    from qutip_qip.circuit import QubitCircuit
+    from qutip_qip.operations import Gate, GATE_CLASS_MAP
+    from qutip_qip.operations import gateclass
+    form, kind = getattr(g, "form", "name"), getattr(g, "cont", "list")
+    T, C = container(kind, g.t), container(kind, g.c)
+    kw = gate_kwargs(g)
+    if form == "class" and g.name not in GATE_CLASS_MAP:
+        form = "generic"
+    if form == "ctrl" and g.name not in ("CNOT", "CSIGN"):
+        form = "generic"
+    if form == "name":
+        qc.add_gate(g.name, targets=T, controls=C, **kw)
+    elif form == "class":
+        if C is not None:
+            kw["controls"] = C
+        qc.add_gate(GATE_CLASS_MAP[g.name](targets=T, **kw))
+    elif form == "generic":
+        qc.add_gate(Gate(g.name, targets=T, controls=C, **kw))
+    elif form == "ctrl":
+        tg = gateclass.X if g.name == "CNOT" else gateclass.Z
+        qc.add_gate(gateclass._OneControlledGate(controls=C, targets=T, target_gate=tg, name=g.name, **kw))
+    elif form == "moved":
+        other = QubitCircuit(qc.N, num_cbits=qc.num_cbits, user_gates=qc.user_gates)
+        other.add_gate(g.name, targets=T, controls=C, **kw)
+        qc.add_gates(other.gates)
+    else:
+        raise ValueError(form)
+
+
+def usable(gate):
+    """does the library itself get the qubits of this object (a CNOT built with controls=(1,) stores [(1,)])"""
+    try:
+        qs = gate.get_all_qubits()
+        return all(isinstance(q, (int, np.integer)) for q in qs)
+    except Exception:
+        return False
+
+
 def build_circuit(N, gates, ncb=0):
     from qutip_qip.circuit import QubitCircuit
     users = {g.name: _user_not for g in gates if g.name in USER_GATES}
@@ -175,18 +257,28 @@ def build_circuit(N, gates, ncb=0):
         if getattr(g, "meas", False):
             qc.add_measurement("M", targets=list(g.t), classical_store=0)
             continue
-        kw = {}
-        if g.value() is not None:
-            kw["arg_value"] = g.value()
-        if getattr(g, "lab", None) is not None:
-            kw["arg_label"] = label_text(g.lab)
-        if getattr(g, "cond", None) is not None:
-            kw["classical_controls"] = list(g.cond[0])
-            kw["classical_control_value"] = g.cond[1]
-        if getattr(g, "style", None) is not None:
-            kw["style"] = dict(g.style)
-        qc.add_gate(g.name, targets=(g.t or None), controls=(g.c or None), **kw)
+        if getattr(g, "form", "name") == "name" and getattr(g, "cont", "list") == "list":
+            qc.add_gate(g.name, targets=(g.t or None), controls=(g.c or None), **gate_kwargs(g))
+        else:
+            add_gate_in_form(qc, g)
     return qc
+
+
+def impl_resolve_on(qc, b):
+    """resolve_gates of an EXISTING circuit object -> (verdict, result, qc)"""
+    try:
+        r = qc.resolve_gates(b)
+    except ValueError as e:
+        m = str(e)
+        return ("err notSufficient1q" if "Not sufficient" in m else
+                "err invalid2q" if "not a valid two-qubit basis" in m else "err other:ValueError"), None, qc
+    except NotImplementedError as e:
+        return ("err measurement" if "measurements" in str(e) else "err cannotResolve"), None, qc
+    except (IndexError, TypeError):
+        return "err index", None, qc
+    except Exception as e:
+        return "err other:" + type(e).__name__, None, qc
+    return "ok", r, qc
 
 
 DEFAULT_ARG = "<default argument>"
@@ -289,10 +381,35 @@ def parse_model_f(ans, symvals):
     return "ok", out
 
 
+def canon_val(v):
+    """attribute values made comparable: numpy arrays / integers keep their kind"""
+    if isinstance(v, np.ndarray):
+        return ("ndarray", [canon_val(x) for x in v.tolist()])
+    if isinstance(v, np.integer):
+        return ("npint", int(v))
+    if isinstance(v, tuple):
+        return ("tuple", [canon_val(x) for x in v])
+    if isinstance(v, list):
+        return [canon_val(x) for x in v]
+    if isinstance(v, dict):
+        return {k: canon_val(x) for k, x in v.items()}
+    if isinstance(v, type) or callable(v):
+        return ("obj", getattr(v, "__name__", repr(v)))
+    return v
+
+
 def attrs(g):
     """every attribute of a gate object, canonical"""
-    d = dict(vars(g))
+    d = {k: canon_val(v) for k, v in vars(g).items()}
     d["__class__"] = type(g).__name__
+    return d
+
+
+def attrs_cmp(g):
+    """attributes for comparing a result with the result of a freshly built circuit: `kwargs` of a ControlledGate is the
+    record of its constructor call (a gate whose condition was assigned later and one built with it differ there only)"""
+    d = attrs(g)
+    d.pop("kwargs", None)
     return d
 
 
@@ -312,10 +429,12 @@ def field_mismatch(m, o, inputs):
     unknown = set(vars(o)) - decomp.KNOWN_ATTRS
     if unknown:
         return f"{o.name}: unknown attributes {sorted(unknown)}"
-    if o.name != m["name"] or aslist(o.targets) != m["t"] or aslist(o.controls) != m["c"]:
+    if o.name != m["name"] or [int(q) for q in aslist(o.targets)] != m["t"] or [int(q) for q in aslist(o.controls)] != m["c"]:
         return f"{o.name}{aslist(o.targets)}{aslist(o.controls)}: expected {m['name']}{m['t']}{m['c']}"
-    if (o.targets is not None and not isinstance(o.targets, list)) or \
-            (o.controls is not None and not isinstance(o.controls, list)):
+    plain = all(isinstance(getattr(i, a), (list, type(None))) for i in inputs for a in ("targets", "controls")
+                if hasattr(i, a))
+    if plain and ((o.targets is not None and not isinstance(o.targets, list)) or
+                  (o.controls is not None and not isinstance(o.controls, list))):
         return f"{o.name}: targets/controls not lists"
     iv = o.arg_value
     if m["name"] in PARAM:
@@ -426,6 +545,19 @@ def keeps_user_gates():
         return False
 
 
+def mixed_containers_ok():
+    """fixes/C03-5: can the library evaluate the resolution of a TOFFOLI whose qubits were given as tuples (the rules
+    hand gate.targets on and index gate.controls: the emitted CNOT has targets=(0,), controls=[1])"""
+    from qutip_qip.circuit import QubitCircuit
+    qc = QubitCircuit(3)
+    qc.add_gate("TOFFOLI", controls=(1, 2), targets=(0,))
+    try:
+        qc.resolve_gates("CNOT").compute_unitary()
+        return True
+    except Exception:
+        return False
+
+
 _VAR = {"v": None}
 
 
@@ -453,6 +585,7 @@ def gates_of_witness(w):
         if x.get("cond") is not None:
             g.cond = (list(x["cond"][0]), x["cond"][1])
         g.style = x.get("style")
+        g.form, g.cont = x.get("form", "name"), x.get("cont", "list")
         gs.append(g)
     return gs
 
@@ -513,6 +646,7 @@ class C03(PropertyCheck):
         "QipVerif.C03.rules_label_their_angles",
         "QipVerif.C03.alias_resolves_like_canonical",
         "QipVerif.C03.alias_same_class",
+        "QipVerif.C03.resolve_reads_current_fields",
     ]
     technique = ("Lean 4: rule tables (gates, qubit selectors, angles, labels) regenerated from the source, each fixed-angle rule's "
                  "exact unitary identity decided by the kernel in Z[zeta16][1/2] (decide +kernel); parametric rules proved over C "
@@ -555,7 +689,9 @@ class C03(PropertyCheck):
     rule = ("case = (register size, gate list with placements, exact/symbolic angles, labels, classical conditions, styles, "
             "measurements, user gates; basis specification); distinct by canonical JSON; non-trivial = at least one gate is "
             "rewritten or refused; plus one case per (one-qubit gate name, controls) for the constructors; plus call histories: "
-            "several such calls made in one process with ONE basis list object (each call one case)")
+            "several such calls made in one process with ONE basis list object (each call one case); object forms of the input "
+            "gates (class instance, generic Gate, moved, _OneControlledGate) x containers of their qubits; live-object histories "
+            "on one circuit (fields re-assigned, gates appended/removed between calls)")
 
     # ---------------------------------------------------------------------------------
     def regenerate(self, ctx):
@@ -634,6 +770,195 @@ class C03(PropertyCheck):
             ist, r, qc = impl_resolve(N, gs, b, num_cbits(gs))
             w = {"N": N, "gates": [g.wit() for g in gs], "basis": list(b)}
             self._compare_one(res, N, gs, b, o, ist, r, qc, stream, w)
+
+    FORM_BASES = [("str", "CNOT"), ("list", ["CSIGN", "RX", "RY"]), ("list", ["ISWAP", "RY", "RZ"]), ("str", "SQRTSWAP"),
+                  ("list", ["SQRTISWAP", "ISWAP", "RX", "RZ"]), ("list", ["RX", "RY", "CNOT"])]
+
+    def _form_cases(self, rng):
+        """every resolvable gate (+ the aliases) in every form x container the constructors accept"""
+        cases, skipped = [], 0
+        for name in RESOLVABLE + ALIASES:
+            nc, nt = shape(name)
+            qs = list(range(nc + nt))
+            rng.shuffle(qs)
+            for form in FORMS[1:]:
+                if form == "ctrl" and name not in ("CNOT", "CSIGN"):
+                    continue
+                for cont in CONTS:
+                    if cont == "scalar" and (nt != 1 or nc > 1):
+                        continue
+                    kw = dict(form=form, cont=cont)
+                    if rng.random() < 0.5:
+                        kw.update(lab=("u", 3), cond=([1, 0], 2))
+                    g = (G(name, qs[:nt], qs[nt:], sym=0, val=0.7390851332151607, **kw) if name in PARAM_ALL
+                         else G(name, qs[:nt], qs[nt:], **kw))
+                    try:
+                        ok = all(usable(x) for x in build_circuit(3, [g], num_cbits([g])).gates)
+                    except Exception:
+                        ok = False
+                    if not ok:
+                        skipped += 1
+                        continue
+                    for b in self.FORM_BASES:
+                        cases.append((3, [g], b))
+        return cases, skipped
+
+    # ---- live-object histories ----------------------------------------------------------------
+    def _live_histories(self, rng, n):
+        """{"live": {N, gates, ops}}; ops: ["R", basis] | ["T", i, ts] | ["C", i, cs] | ["A", i, value] | ["K", i, cond|None]
+        | ["P", gate entry] | ["D", i]; edits keep every gate a library gate on distinct in-range qubits"""
+        names = [n_ for n_ in RESOLVABLE + ALIASES if n_ not in ("SQRTSWAP", "SQRTISWAP")]
+        for k in range(n):
+            N = rng.randint(2, 3)
+            cur = []
+            while not cur:
+                cur = [g for g in (random_gate(rng, N, names, i) for i in range(rng.randint(1, 4))) if g is not None]
+            for g in cur:
+                g.form = rng.choice(["name", "name", "class", "generic", "moved"])
+            w = {"N": N, "gates": [g.wit() for g in cur], "ops": []}
+            shapes = [(len(g.c), len(g.t), g.name) for g in cur]
+            bases = [rng.choice(valid_bases()) for _ in range(2)]
+            ops = [["R", list(bases[0])]]
+            for _ in range(rng.randint(1, 4)):
+                kind = rng.choice("TTAKPD") if shapes else "P"
+                if kind == "T":
+                    i = rng.randrange(len(shapes))
+                    nc, nt, _n = shapes[i]
+                    if nc + nt == 0:
+                        continue
+                    qs = rng.sample(range(N), nc + nt)
+                    if nc:
+                        ops.append(["C", i, qs[nt:]])
+                    ops.append(["T", i, qs[:nt]])
+                elif kind == "A":
+                    cand = [i for i, sh in enumerate(shapes) if sh[2] in PARAM]
+                    if cand:
+                        ops.append(["A", rng.choice(cand), rng.choice([rng.uniform(-7, 7), math.pi, 0.0])])
+                elif kind == "K":
+                    i = rng.randrange(len(shapes))
+                    ops.append(["K", i, rng.choice([None, [[0], 1], [[1, 0], 2], [[1], 0]])])
+                elif kind == "P":
+                    g = None
+                    while g is None:
+                        g = random_gate(rng, N, names, 100 + len(ops))
+                    g.form = rng.choice(["name", "class", "generic"])
+                    ops.append(["P", g.wit()])
+                    shapes.append((len(g.c), len(g.t), g.name))
+                elif kind == "D" and len(shapes) > 1:
+                    i = rng.randrange(len(shapes))
+                    ops.append(["D", i])
+                    shapes.pop(i)
+                if rng.random() < 0.3:
+                    ops.append(["R", list(rng.choice(bases))])
+            ops.append(["R", list(bases[1])])
+            w["ops"] = ops
+            yield {"live": w}
+
+    def _play_live(self, w, judge=False):
+        """execute a live history on ONE QubitCircuit -> list of per-call records
+        (cur gates copy, basis, ist, r, qc_snapshot_equal, fresh (ist, r), qc); judge: the property evaluated at call time"""
+        L = w["live"]
+        N = L["N"]
+        cur = gates_of_witness({"gates": L["gates"]})
+        qc = build_circuit(N, cur, 2)
+        fresh_sym = [1000]
+        out = []
+        for op in L["ops"]:
+            k = op[0]
+            if k == "R":
+                b = (op[1][0], op[1][1] if op[1][0] == "str" else list(op[1][1]))
+                before = [attrs(g) for g in qc.gates]
+                obj = b[1] if b[0] == "str" else list(b[1])
+                ist, r, _ = impl_resolve_on(qc, obj)
+                same = before == [attrs(g) for g in qc.gates]
+                snap = [G(g.name, g.t, g.c, sym=g.sym, p8=g.p8, val=g.val, lab=g.lab, cond=g.cond, style=g.style,
+                          form=g.form, cont=g.cont) for g in cur]
+                ist2, r2, qc2 = impl_resolve(N, snap, b, 2)
+                out.append({"gates": snap, "basis": b, "ist": ist, "r": r, "untouched": same, "fresh": (ist2, r2, qc2),
+                            "qc": qc, "inputs": copy.deepcopy(qc.gates),
+                            "judged": self._judge(N, snap, b, ist, r, qc) if judge else None})
+            elif k == "T":
+                qc.gates[op[1]].targets = list(op[2])
+                cur[op[1]].t = list(op[2])
+            elif k == "C":
+                qc.gates[op[1]].controls = list(op[2])
+                cur[op[1]].c = list(op[2])
+            elif k == "A":
+                qc.gates[op[1]].arg_value = op[2]
+                fresh_sym[0] += 1
+                cur[op[1]].sym, cur[op[1]].val = fresh_sym[0], op[2]
+            elif k == "K":
+                g = qc.gates[op[1]]
+                if op[2] is None:
+                    g.classical_controls, g.classical_control_value = None, None
+                    cur[op[1]].cond = None
+                else:
+                    g.classical_controls, g.classical_control_value = list(op[2][0]), op[2][1]
+                    cur[op[1]].cond = (list(op[2][0]), op[2][1])
+            elif k == "P":
+                g = gates_of_witness({"gates": [op[1]]})[0]
+                if g.sym is not None:
+                    fresh_sym[0] += 1
+                    g.sym = fresh_sym[0]
+                add_gate_in_form(qc, g) if (g.form, g.cont) != ("name", "list") else \
+                    qc.add_gate(g.name, targets=(g.t or None), controls=(g.c or None), **gate_kwargs(g))
+                cur.append(g)
+            elif k == "D":
+                qc.remove_gate_or_measurement(index=op[1])
+                cur.pop(op[1])
+        return out
+
+    def _live_line(self, w):
+        """the request for Decomp.runHistory: the same history on the model's circuit"""
+        kc, ex = variant()
+        L = w["live"]
+        cur = gates_of_witness({"gates": L["gates"]})
+        items = ";".join(g.enc_item() for g in cur)
+        d = lambda l: ".".join(map(str, l)) if l else "-"
+        sym = [1000]
+        ops = []
+        for op in L["ops"]:
+            k = op[0]
+            if k == "R":
+                ops.append("R~" + basis_enc((op[1][0], op[1][1])))
+            elif k in ("T", "C"):
+                ops.append(f"{k}~{op[1]}~{d(op[2])}")
+            elif k == "A":
+                sym[0] += 1
+                ops.append(f"A~{op[1]}~{sym[0]},1,1,0")
+            elif k == "K":
+                ops.append(f"K~{op[1]}~" + ("n" if op[2] is None else f"{d(op[2][0])}:{op[2][1]}"))
+            elif k == "P":
+                g = gates_of_witness({"gates": [op[1]]})[0]
+                if g.sym is not None:
+                    sym[0] += 1
+                    g.sym = sym[0]
+                ops.append("P~" + g.enc_item())
+            elif k == "D":
+                ops.append(f"D~{op[1]}")
+        return f"history v=1{int(kc)}{int(ex)} items={items} ops={'|'.join(ops)}"
+
+    def _run_live(self, ctx, res, lives):
+        outs = ctx.driver("drv_decomp").run([self._live_line(w) for w in lives])
+        for w, o in zip(lives, outs):
+            answers = o.split("#")
+            try:
+                calls = self._play_live(w)
+            except Exception as e:
+                res.disagree({"live": w["live"]["ops"]}, o[:200], "harness: " + repr(e), "live history could not be played", w)
+                continue
+            if len(answers) != len(calls):
+                res.disagree({"live": w["live"]["ops"]}, o[:200], len(calls), "number of resolve calls", w)
+                continue
+            for k, (c, a) in enumerate(zip(calls, answers)):
+                class _Q:          # the input objects as they were at that call
+                    gates = c["inputs"]
+                    num_cbits, reverse_states = c["qc"].num_cbits, c["qc"].reverse_states
+                self._compare_one(res, w["live"]["N"], c["gates"], c["basis"], a, c["ist"], c["r"], _Q, "live",
+                                  {"live": w["live"], "history": w["live"]["ops"]}, [f"livecall={min(k + 1, 3)}"])
+                if not c["untouched"]:
+                    res.disagree({"live": w["live"]["ops"], "call": k + 1}, "circuit unchanged", "circuit changed",
+                                 "resolve_gates modified the circuit it was called on", w)
 
     def _run_histories(self, ctx, res, hists):
         """histories: ONE basis list object handed to several resolve_gates calls made in this order.  The model is
@@ -717,6 +1042,18 @@ class C03(PropertyCheck):
                     cases.append((2, [G("SNOT", [1 - q], []), G(un, [q], [], lab=("u", 1), cond=([0], 1)),
                                       G("CNOT", [q], [1 - q])], ub))
         self._run_cases(ctx, res, cases, "user-gates")
+        # OBJECT FORM of the input gates x container of their qubits: the model is form-independent
+        fcases, skipped = self._form_cases(rng)
+        self._run_cases(ctx, res, fcases, "forms")
+        res.notes.append(f"object forms: every resolvable gate as class instance / generic Gate / moved from another circuit / "
+                         f"_OneControlledGate, qubits as list / tuple / numpy array / numpy integers / scalar, x 6 bases "
+                         f"({len(fcases)} cases; {skipped} combinations the constructors refuse or build unusable)")
+        # LIVE-OBJECT histories: one circuit resolved, its gates' fields re-assigned / gates appended / removed, resolved again
+        lives = list(self._live_histories(rng, 60 if not ctx.thorough else 500))
+        self._run_live(ctx, res, lives)
+        res.notes.append(f"{len(lives)} live-object histories on one QubitCircuit (fields re-assigned, gates appended/removed between "
+                         "resolve_gates calls in changing bases): each call against Decomp.runHistory, against a freshly built "
+                         "circuit with the current fields, and the circuit itself unchanged by the call")
         # histories: one basis list OBJECT for several calls (every list basis; the later circuits contain gates whose
         # decomposition yields every rotation axis)
         hists = list(self._histories(rng, 40 if not ctx.thorough else 400))
@@ -750,6 +1087,8 @@ class C03(PropertyCheck):
 
     # ---------------------------------------------------------------------------------
     def oracle_replay(self, ctx, w):
+        if "live" in w:
+            return self._replay_live(ctx, w)
         if "history" in w:
             return self._replay_history(ctx, w)
         gs = gates_of_witness(w)
@@ -758,6 +1097,34 @@ class C03(PropertyCheck):
         N = w["N"]
         ist, r, qc = impl_resolve(N, gs, b, num_cbits(gs))
         return self._judge(N, gs, b, ist, r, qc)
+
+    def _replay_live(self, ctx, w):
+        """ONE QubitCircuit object: resolve_gates calls interleaved with re-assignments of the gates' public fields and
+        appended / removed gates.  Per call: (c) the property for the circuit as it is at that time; (a) the result equals
+        resolve_gates of a freshly built circuit with the current fields (no stale memo, no state); (b) the call leaves the
+        circuit alone."""
+        try:
+            calls = self._play_live(w, judge=True)
+        except Exception as e:
+            return False, f"history not executable: {type(e).__name__}: {e}"
+        n = len(calls)
+        found = {}
+        for k, c in enumerate(calls):
+            pre = f"resolve_gates call {k + 1} of {n} on one circuit object (basis {c['basis'][1]}): "
+            f, d = c["judged"]
+            if f:
+                found.setdefault("c", pre + d)
+            ist2, r2, _ = c["fresh"]
+            if c["ist"] != ist2 or (ist2 == "ok" and [attrs_cmp(g) for g in c["r"].gates] != [attrs_cmp(g) for g in r2.gates]):
+                a = [g.name for g in c["r"].gates] if c["ist"] == "ok" else c["ist"]
+                a2 = [g.name for g in r2.gates] if ist2 == "ok" else ist2
+                found.setdefault("a", pre + f"gives {a}; a freshly built circuit with the current fields gives {a2}")
+            if not c["untouched"]:
+                found.setdefault("b", pre + "the call modified the circuit it was called on")
+        for key in ("c", "a", "b"):
+            if key in found:
+                return True, found[key]
+        return False, f"all {n} calls meet the property and equal the calls on a freshly built circuit"
 
     def _replay_history(self, ctx, w):
         """calls made in this order in one process with ONE basis list object (or the default argument, or one
@@ -831,6 +1198,10 @@ class C03(PropertyCheck):
     def _judge(self, N, gs, b, ist, r, qc):
         """the property for ONE call: (N, gs) resolved in basis `b` gave (ist, r); qc = the input circuit"""
         ncb = num_cbits(gs)
+        from qutip_qip.operations import Gate as _Gate
+        if not all(usable(g) for g in qc.gates if isinstance(g, _Gate)):
+            return False, ("outside the property: the circuit contains a gate object whose qubits the library itself cannot "
+                           "read (e.g. CNOT(controls=(1,)) stores [(1,)] - a matter of the constructors, C09)")
         names = [b[1]] if b[0] == "str" else list(b[1])
         # a user's gate named in the list form of the basis is passed through; the rest of the list is judged as usual
         users = [n for n in names if n in USER_GATES] if b[0] == "list" else []
@@ -869,7 +1240,10 @@ class C03(PropertyCheck):
                                                                   for x in qc.gates)):
                     return True, "emitted gate object: " + d
         if N <= 6 and ncb == 0:
-            U0 = qc.compute_unitary().full()
+            try:
+                U0 = qc.compute_unitary().full()
+            except Exception as e:
+                return False, f"outside the property: the library cannot evaluate the circuit itself ({type(e).__name__}: {e})"
             try:
                 U1 = r.compute_unitary().full()
             except Exception as e:
@@ -918,6 +1292,24 @@ class C03(PropertyCheck):
                 gs = [g for g in (random_gate(rng, N, RESOLVABLE + ALIASES, i) for i in range(rng.randint(1, 5))) if g is not None]
                 hist.append({"N": N, "gates": [g.wit() for g in gs]})
             yield {"basis": ["list", list(b[1])], "history": hist}
+
+    def _form_witnesses(self):
+        """every resolvable gate in every object form x container, a few bases (judged by the property only)"""
+        mixed = mixed_containers_ok()
+        for name in RESOLVABLE + ALIASES:
+            nc, nt = shape(name)
+            for form in FORMS:
+                if form == "ctrl" and name not in ("CNOT", "CSIGN"):
+                    continue
+                for cont in CONTS:
+                    if (form, cont) == ("name", "list") or (cont == "scalar" and (nt != 1 or nc > 1)):
+                        continue
+                    if not mixed and nc and cont in ("tuple", "array"):
+                        continue                    # recorded class C03-5 (the emitted gates mix tuple and list)
+                    g = G(name, list(range(nt)), list(range(nt, nt + nc)), sym=0 if name in PARAM_ALL else None, val=0.739,
+                          form=form, cont=cont)
+                    for b in self.FORM_BASES:
+                        yield {"N": max(1, nc + nt), "gates": [g.wit()], "basis": list(b)}
 
     def _oracle_histories(self):
         small = {"N": 1, "gates": [G("X", [0], []).wit()]}
@@ -969,7 +1361,7 @@ class C03(PropertyCheck):
 
     def oracle_search(self, ctx, budget_s):
         t0 = time.time()
-        for w in self._oracle_histories():
+        for w in itertools.chain(self._oracle_histories(), self._form_witnesses(), self._live_histories(ctx.rng, 150)):
             f, d = self.oracle_replay(ctx, w)
             if f:
                 yield w, d
@@ -986,7 +1378,10 @@ class C03(PropertyCheck):
                 yield w, d
 
     def oracle_always(self, ctx):
-        for w in self._oracle_histories():
+        fw = list(self._form_witnesses())
+        if not ctx.thorough:
+            fw = ctx.rng.sample(fw, min(len(fw), 250))
+        for w in itertools.chain(self._oracle_histories(), fw, self._live_histories(ctx.rng, 40 if not ctx.thorough else 300)):
             f, d = self.oracle_replay(ctx, w)
             if f:
                 yield w, d
